@@ -147,7 +147,17 @@ def _run_case_forked(spec, seed, values, force=None):
 # ------------------------------------------------------------------------------------------------
 # worker side
 # ------------------------------------------------------------------------------------------------
-def _worker(spec_name, base_seed, indices, wall_deadline, want_digests, max_keep=40):
+def fixed_cases_of(spec, tier):
+    """The fixed (enumerated) cases of a check; a check may make them depend on the tier."""
+    if not hasattr(spec, "fixed_cases"):
+        return []
+    try:
+        return list(spec.fixed_cases(tier))
+    except TypeError:
+        return list(spec.fixed_cases())
+
+
+def _worker(spec_name, base_seed, indices, wall_deadline, want_digests, tier="quick", max_keep=40):
     import faulthandler
     faulthandler.enable()
     t0 = time.time()
@@ -157,7 +167,7 @@ def _worker(spec_name, base_seed, indices, wall_deadline, want_digests, max_keep
     res = {"n": 0, "stats": collections.Counter(), "fps": set(), "states": set(), "violations": [],
            "samples": [], "digests": {}, "truncated": False, "sim_time": 0.0, "stuck": None,
            "nviol": 0, "sigs": collections.Counter(), "maxima": {}}
-    fixed = list(spec.fixed_cases()) if hasattr(spec, "fixed_cases") else []
+    fixed = fixed_cases_of(spec, tier)
     for idx in indices:
         if time.time() > wall_deadline:
             res["truncated"] = True
@@ -358,9 +368,9 @@ def run_check(spec, tier, base_seed, nproc=None, n_override=None):
               "nviol": 0, "sigs": collections.Counter(), "cpu_wall": 0.0, "maxima": {}}
     harness_errors = []
     with concurrent.futures.ProcessPoolExecutor(max_workers=nproc, mp_context=ctx) as ex:
-        nfixed = len(list(spec.fixed_cases())) if hasattr(spec, "fixed_cases") else 0
+        nfixed = len(fixed_cases_of(spec, tier))
         all_idx = [-(j + 1) for j in range(nfixed)] + list(range(n))
-        futs = [ex.submit(_worker, spec.__name__, base_seed, all_idx[i::nproc], deadline, self_idx)
+        futs = [ex.submit(_worker, spec.__name__, base_seed, all_idx[i::nproc], deadline, self_idx, tier)
                 for i in range(nproc)]
         for fu in futs:
             try:
